@@ -847,7 +847,9 @@ func tarHeader(content *files.Content, preferredModTimes ...time.Time) (*tar.Hea
 	fm := content.Mode()
 
 	h := &tar.Header{
-		Name: content.Name(),
+		// every kind of member sits at its destination (content.Name() is the
+		// source path: a device or fifo source used to keep that name)
+		Name: files.AsExplicitRelativePath(content.Destination),
 		ModTime: modtime.Get(
 			append(preferredModTimes, content.ModTime())...),
 		Mode:   int64(fm & 0o7777),
